@@ -8,7 +8,7 @@ from sa import run as _run
 from sa import q as Q
 from sa.cfg import cfg_of, PathBoundExceeded
 from sa.pathsim import PathSim, C, NULL
-from sa.q import cond_atoms, path_end, strip_sv, sv_field_path, atomic_op, noepoch, lock_state, sv_mentions
+from sa.q import norm_cond, node_line, cond_atoms, path_end, strip_sv, sv_field_path, atomic_op, noepoch, lock_state, sv_mentions
 from . import e2, e3
 
 PROPERTY = "C13"
@@ -392,5 +392,109 @@ def r13_8(ctx):
 r13_8.rule_id = "R13.8"
 
 
-RULES = [r13_1, r13_2, r13_3, r13_4, r13_5, r13_6, r13_7, r13_8]
-FLOORS = {"R13.1": 30, "R13.2": 100, "R13.3": 10, "R13.4": 10, "R13.5": 3, "R13.6": 20, "R13.7": 4, "R13.8": 4}
+def _conjuncts(sv):
+    sv = noepoch(sv)
+    if isinstance(sv, tuple) and sv[:2] == ("op", "&&") and len(sv) == 4:
+        return _conjuncts(sv[2]) + _conjuncts(sv[3])
+    return [sv]
+
+
+def r13_9(ctx):
+    """LazyList: a successful validation implies that the locked predecessor is not logically removed.  Either validate_link tests the
+    predecessor's mark itself, or every store that sets the mark also redirects the removed node's link to the list head (which is never a
+    search's 'current' node), so that 'pPred->m_pNext == pCur' cannot hold for a removed pPred (the comparison ignores the mark bit)."""
+    n = 0
+    groups = {}
+    for F in ctx.db.funcs.values():
+        if re.match(r"cds::intrusive::LazyList::", F.q):
+            groups.setdefault(F.ct, []).append(F)
+    for ct, fs in groups.items():
+        vl = [F for F in fs if F.q.endswith("::validate_link")] or [F for F in fs if F.q.endswith("::validate")]
+        if not vl:
+            continue
+        pcache = {}
+
+        def paths_of(G):
+            if id(G) not in pcache:
+                try:
+                    pcache[id(G)] = PathSim(G, bound=4000).run()
+                except PathBoundExceeded:
+                    pcache[id(G)] = None
+            return pcache[id(G)]
+        # B: marking stores
+        marks = []      # (F, event, ptr value)
+        for F in fs:
+            if not Q.calls_in(F, r"std::atomic::(store|compare_exchange_(weak|strong)|exchange)$"):
+                continue
+            ps = paths_of(F)
+            if ps is None:
+                continue
+            seen = set()
+            for p in ps:
+                for e in p.events:
+                    if e.kind != "call" or not atomic_op(e) or atomic_op(e) == "load" or sv_field_path(e.obj)[-1:] != ["m_pNext"]:
+                        continue
+                    for a in e.args:
+                        a = noepoch(a)
+                        if isinstance(a, tuple) and a[:1] == ("obj",) and "marked_ptr" in str(a[1]) and isinstance(a[2], tuple) and len(a[2]) == 2 \
+                                and isinstance(a[2][1], tuple) and a[2][1][:1] == ("c",) and a[2][1][1] not in (0, None):
+                            k = (id(e.node), repr(a[2][0]))
+                            if k not in seen:
+                                seen.add(k)
+                                marks.append((F, e, a[2][0]))
+        if not marks:
+            continue        # insert-only list: nothing is ever marked
+        head = ("addr", ("fld", ("this",), "m_Head"))
+
+        def start_node(F, ptr, depth=0):
+            """ptr is the list head or the start node the operation was given: &m_Head, or a parameter that every in-class caller fills with a
+            start node (a parameter of an entry point without in-class callers - SplitListSet passes a bucket's dummy head - counts)"""
+            if ptr == head:
+                return True
+            if depth > 6 or not (isinstance(ptr, tuple) and ptr[:1] == ("p",)):
+                return False
+            idx = [i for i, pp in enumerate(F.params) if pp["d"] == ptr[1]]
+            if not idx:
+                return False
+            for G in fs:
+                if G is F or not Q.calls_in(G, re.escape(F.q) + "$"):
+                    continue
+                gps = paths_of(G)
+                if gps is None:
+                    return False
+                for p in gps:
+                    for x in p.events:
+                        if x.kind == "call" and x.q == F.q and len(x.args) == len(F.params):
+                            if not start_node(G, noepoch(x.args[idx[0]]), depth + 1):
+                                return False
+            return True
+        not_head = [(F, e, ptr) for F, e, ptr in marks if not start_node(F, ptr)]
+        for V in vl:
+            for p in PathSim(V, bound=2000).run():
+                if p.outcome != "return" or p.ret == C(0):
+                    continue
+                if any(e.kind == "branch" and isinstance(e.extra, tuple) and e.extra[0] == "&&" and e.extra[1] is False for e in p.events):
+                    continue            # a conjunct was false: this path returns false
+                pred = V.params[0]["d"] if V.params else None
+                marked_calls = [noepoch(e.val) for e in p.events if e.kind == "call" and e.q and e.q.endswith("node::is_marked")
+                                and isinstance(e.obj, tuple) and noepoch(e.obj)[:2] == ("p", pred)]
+                conj = _conjuncts(p.ret) if p.ret is not None else []
+                for e in p.events:
+                    if e.kind == "branch" and isinstance(e.extra, tuple) and e.extra[0] != "switch":
+                        atom, pol = norm_cond(e.val)
+                        conj.append(noepoch(atom) if e.extra[1] == pol else ("un", "!", noepoch(atom)))
+                a_ok = any(c == ("un", "!", m) for c in conj for m in marked_calls)
+                n += 1
+                ctx.check(a_ok or not not_head, "R13.9", V, "a successful validation implies the locked predecessor is not logically removed", None,
+                          detail="validate_link does not test the predecessor's mark, and the marking store at %s keeps a link (%r) that is not the list head: "
+                          "'pPred->m_pNext == pCur' ignores the mark bit and holds for a removed predecessor whose frozen forward link still names pCur - the new node "
+                          "is linked behind a dead node (lost insert). %s"
+                          % (", ".join("%s:%s" % (f.q.split("::")[-1], node_line(e.node)) for f, e, _ in not_head[:3]), not_head[0][2] if not_head else None, R),
+                          sig="validate-pred-unmarked")
+    if n < 2:
+        ctx.broken("LazyList validate_link success paths not found (%d)" % n)
+r13_9.rule_id = "R13.9"
+
+
+RULES = [r13_1, r13_2, r13_3, r13_4, r13_5, r13_6, r13_7, r13_8, r13_9]
+FLOORS = {"R13.1": 30, "R13.2": 100, "R13.3": 10, "R13.4": 10, "R13.5": 3, "R13.6": 20, "R13.7": 4, "R13.8": 4, "R13.9": 2}
